@@ -1,5 +1,7 @@
-(* Model entry point + oracle for the C18 correspondence. *)
-From PyGql Require Import Run.Driver Lang.VisitorModel Lang.VisitorEq.
+(* Model entry point + oracle for the C18 correspondence.  The model run is [visit_topx]
+   (Lang/VisitorCross.v): the proved [visit] extended to replacements of another class;
+   it agrees with [visit_top] wherever that answers Ok (C18_cross_conservative). *)
+From PyGql Require Import Run.Driver Lang.VisitorModel Lang.VisitorCross Lang.VisitorEq.
 
 (* The recording visitor of the harness decides by (class, loc) of the node
    it is given; everything not in its table is kept. *)
@@ -43,13 +45,13 @@ Definition transform_visitor (which : N) : visitor :=
 Definition model_C18 (i : in18) : outcome obs18 :=
   match i with
   | CVisit vs root =>
-      do p <- visit_top fuel18 (map mk_visitor vs) root; Ok (OVisit (fst p) (snd p))
+      do p <- visit_topx fuel18 (map mk_visitor vs) root; Ok (OVisit (fst p) (snd p))
   | CVisitPos vs insts root =>
-      do p <- visit_top fuel18 (map mk_visitor vs) root;
+      do p <- visit_topx fuel18 (map mk_visitor vs) root;
       Ok (OVisit (map (fun e : event => match e with (i, en, k, l) => (nth i insts i, en, k, l) end) (fst p))
                  (snd p))
   | CTransform which d =>
-      do p <- visit_top fuel18 [transform_visitor which] (NDoc d); Ok (OTree (snd p))
+      do p <- visit_topx fuel18 [transform_visitor which] (NDoc d); Ok (OTree (snd p))
   | CDispatch k =>
       Ok (ODispatch (in_table k visit_table) (in_table k definition_table)
                     (in_table k dispatch_enter_table) (in_table k dispatch_leave_table))
@@ -71,6 +73,7 @@ Definition agree_C18 (c : case_C18) : bool :=
   match model_C18 (fst c), snd c with
   | Ok o, o' => obs_eqb o o'
   | Crash 3, OCrash => true            (* TypeError from a class table *)
+  | Crash 1, OCrash => true            (* AttributeError / TypeError: a method body run on a node of another class *)
   | Crash 2, OIllFormed => true
   | _, _ => false
   end.
